@@ -422,6 +422,10 @@ func runC08(r *ev.Run) {
 						d.ID = id
 					}
 				} else {
+					if !m.ever[0] && rng.IntN(10) == 0 {
+						d.ID = 0 // the smallest id there is: legal for AddWithID like any other (generated ids start at 1)
+						r.Count("ops:add-with-id-0", 1)
+					}
 					err = s.AddWithID(d.ID, cloneF32(d.Vec), d.Text, d.Meta)
 				}
 				if err != nil {
